@@ -9,8 +9,11 @@ import (
 	"encoding/json"
 	"fmt"
 	"math/big"
+	"os"
 	"sort"
 	"strings"
+	"sync/atomic"
+	"time"
 
 	"github.com/xuperchain/xupercore/bcs/ledger/xledger/ledger"
 	"github.com/xuperchain/xupercore/bcs/ledger/xledger/state"
@@ -778,6 +781,29 @@ func (e *Exec) exec1(op string, pos []string, kv map[string]string, line string)
 		e.checkPool(line)
 		e.checkState(line)
 		return errEnum(errA) + "," + errEnum(errB)
+	case "selrace":
+		// two selectors with locking on one address: selector B runs while selector A is held at its k-th log call,
+		// for every k (cold cache: the selection scans the utxo table and locks output by output)
+		addr := w.AddrOf[pos[0]]
+		need := big.NewInt(int64(atoi(pos[1])))
+		points := 0
+		for k := 0; k < 48; k++ {
+			if err := w.Main.Reopen(); err != nil {
+				return "error:" + err.Error()
+			}
+			reached, common, desc := selRaceAt(w.Main.S, addr, need, k)
+			if common != "" {
+				e.violate("selection-handed-twice", fmt.Sprintf("two concurrent SelectUtxos(%s, %s, lock) were both handed output %s (selector B ran while selector A was at its log call #%d %q)", pos[0], pos[1], common, k, desc), line)
+				break
+			}
+			if !reached {
+				break
+			}
+			points++
+		}
+		e.out.Count(fmt.Sprintf("selrace-points:%02d", points))
+		e.checkState(line)
+		return "-"
 	case "balrace":
 		// GetBalance of a cold address overlaps an admission: the tx lands right after the balance scan took its snapshot
 		t := w.Txs[atoi(pos[1])]
@@ -1368,3 +1394,68 @@ func (e *Exec) snapCheck() string {
 var _ = json.Marshal
 var _ = bytes.Equal
 var _ = ledger.ErrBlockNotExist
+
+
+// selRaceAt runs selector A until its k-th log call, lets selector B run (to its end, or until it is seen to wait for
+// A), then lets A finish. Returns whether A reached that point, and an output that both selectors were handed.
+func selRaceAt(s *state.State, addr string, need *big.Int, k int) (bool, string, string) {
+	type res struct {
+		ins []*protos.TxInput
+		err error
+	}
+	sel := func(c chan res) {
+		ins, _, _, err := s.SelectUtxos(addr, need, true, false)
+		c <- res{ins, err}
+	}
+	var n int32
+	var desc string
+	paused, resume := make(chan struct{}), make(chan struct{})
+	chainlib.SetLogHook(func(msg string) {
+		if atomic.AddInt32(&n, 1) == int32(k+1) {
+			chainlib.SetLogHook(nil)
+			desc = msg
+			close(paused)
+			select {
+			case <-resume:
+			case <-time.After(5 * time.Second):
+			}
+		}
+	})
+	defer chainlib.SetLogHook(nil)
+	ra, rb := make(chan res, 1), make(chan res, 1)
+	go sel(ra)
+	var a, b res
+	select {
+	case a = <-ra:
+		if os.Getenv("XV_DEBUG") != "" {
+			fmt.Fprintf(os.Stderr, "selRaceAt k=%d: A finished early: %d inputs err=%v logcalls=%d\n", k, len(a.ins), a.err, atomic.LoadInt32(&n))
+		}
+		return false, "", ""
+	case <-paused:
+	}
+	go sel(rb)
+	gotB := false
+	select {
+	case b = <-rb:
+		gotB = true
+	case <-time.After(20 * time.Millisecond): // B waits for a lock A holds: A goes on
+	}
+	close(resume)
+	a = <-ra
+	if !gotB {
+		b = <-rb
+	}
+	if a.err != nil || b.err != nil {
+		return true, "", desc
+	}
+	seen := map[string]bool{}
+	for _, in := range a.ins {
+		seen[fmt.Sprintf("%x.%d", in.RefTxid, in.RefOffset)] = true
+	}
+	for _, in := range b.ins {
+		if id := fmt.Sprintf("%x.%d", in.RefTxid, in.RefOffset); seen[id] {
+			return true, id[:8] + id[strings.LastIndex(id, "."):], desc
+		}
+	}
+	return true, "", desc
+}
